@@ -10,6 +10,8 @@ from mc.core import bits
 from mc.world import make_shot
 
 PID = 'C18'
+# thread bodies (defined with engine E4, mc/checks/c10_sched.py) that exercise this property's code; explored after the parts below
+SCHED_SETS = [('construct||construct', 'line')]
 LEVEL = 'model_checking'
 ENGINE = 'E2+E1'
 TECHNIQUE = 'exhaustive enumeration of all 2^8 setting subsets with per-setting observables, explicit-state BFS to closure over set/reset/create/fire histories of the global default step against a dictionary model, and all unit names and aliases x letter casings x blanks x channels (parser, setter, basicConfig, generated toml, value strings)'
@@ -305,6 +307,9 @@ ADV_SHOTS = {
     'crawl_head': {'mv': 90.0, 'wind': [[70, 180, None]], '_R': 8.0}, 'crawl_tail': {'mv': 90.0, 'wind': [[50, 0, None]], '_R': 8.0},
     'vertical_slow': {'zero': 90.0, 'mv': 300.0, '_cfg': {'cMinimumVelocity': 0.0}, '_R': 10.0},
     'zero_velocity': {'mv': 0.0, '_cfg': {'cMinimumVelocity': 0.0}, '_R': 10.0},
+    # requests far beyond reach (the whole flight down to a limit is integrated): the step follows the setting whatever range is asked for
+    'far_pellet': {'dm': 'G1', 'bc': 0.03, 'mv': 900.0, 'zero': 1.0, '_R': 3.0e6, '_far': True},
+    'far_arc': {'zero': 60.0, 'mv': 500.0, '_R': 1.0e7, '_far': True},
 }
 
 
@@ -316,7 +321,10 @@ def advance(cell):
     name, ms = cell
     spec = dict(ADV_SHOTS[name])
     cfg = dict(spec.pop('_cfg', {}))
-    R = min(spec.pop('_R', 600.0), 2400 * ms)       # at most ~5000 integration steps
+    far = spec.pop('_far', False)
+    R = spec.pop('_R', 600.0)
+    if not far:
+        R = min(R, 2400 * ms)       # at most ~5000 integration steps
     cfg['max_calc_step_size_feet'] = ms
     calc = pb.Calculator(_config=cfg)
     shot = make_shot(spec)
